@@ -374,8 +374,82 @@ def run_config(ctx, clauses, qname, qargs, outer, py, c):
     return r
 
 
+class NeverEqual:
+    """a Python value that is not equal to anything, itself included (like NaN, like a missing-value marker)"""
+    def __eq__(self, other):
+        return False
+
+    def __ne__(self, other):
+        return True
+    __hash__ = object.__hash__
+
+    def __repr__(self):
+        return 'NeverEqual()'
+
+
+def odd_constant_case(ctx, rng):
+    """values from the host program as terms - None, 0, '', NaN, Decimal('NaN'), an object that equals nothing,
+    bytes, a tuple: whatever a variable is bound to, the binding is gone when the generator ends (however it ends),
+    for a bare unification and for a query over dynamic facts holding such values"""
+    import decimal
+    real = ctx['real']
+    E = real.E
+    yp = real.engine()
+    k = rng.choice([float('nan'), decimal.Decimal('NaN'), NeverEqual(), None, 0, '', b'', (), 0.0, False])
+    c = {'odd_constant_cases': 1}
+    w = {'constant': repr(k)}
+    for how in ('exhaust', 'close', 'drop', 'throw'):
+        X = yp.variable()
+        Y = yp.variable()
+        g = iter(E.unify(yp.functor('p', [X, Y]), yp.functor('p', [Y, k])) if rng.random() < 0.5 else E.unify(X, k))
+        try:
+            next(g)
+        except StopIteration:
+            return {'c': c, 'nt': True, 'key': None, 'v': {'kind': 'free_variable_does_not_unify_with_constant', 'detail': w, 'witness': w}}
+        if E.get_value(X) is not k:
+            return {'c': c, 'nt': True, 'key': None, 'v': {'kind': 'variable_not_bound_to_the_constant_at_yield', 'detail': w, 'witness': w}}
+        if how == 'exhaust':
+            for _ in g:
+                pass
+        elif how == 'close':
+            g.close()
+        elif how == 'throw':
+            try:
+                g.throw(KeyError('consumer'))
+            except (KeyError, StopIteration, AttributeError):
+                pass
+        del g
+        if E.get_value(X) is not X or X._is_bound or Y._is_bound:
+            return {'c': c, 'nt': True, 'key': None, 'v': {'kind': 'variable_left_bound_to_constant', 'detail': dict(w, ended_by=how), 'witness': dict(w, ended_by=how)}}
+        c['odd_constant_unifications'] = c.get('odd_constant_unifications', 0) + 1
+    # dynamic facts holding the value
+    vals = [1, k, 'x']
+    rng.shuffle(vals)
+    for i, v in enumerate(vals):
+        yp.assert_fact(yp.atom('reading'), [yp.atom('s%d' % i), v])
+    S, Vv = yp.variable(), yp.variable()
+    for stop in (None, 1, 2):
+        n = 0
+        q = yp.query('reading', [S, Vv])
+        for _ in q:
+            n += 1
+            if E.get_value(Vv) is not vals[n - 1] and E.get_value(Vv) != vals[n - 1]:
+                return {'c': c, 'nt': True, 'key': None, 'v': {'kind': 'answer_wrong', 'detail': dict(w, answer=n), 'witness': w}}
+            if stop == n:
+                q.close()
+                break
+        if stop is None and n != 3:
+            return {'c': c, 'nt': True, 'key': None, 'v': {'kind': 'answers_missing', 'detail': dict(w, expected=3, got=n, values=repr(vals)), 'witness': w}}
+        if S._is_bound or Vv._is_bound:
+            return {'c': c, 'nt': True, 'key': None, 'v': {'kind': 'variable_left_bound_to_constant', 'detail': dict(w, after_query_stopped_at=stop), 'witness': w}}
+        c['odd_constant_queries'] = c.get('odd_constant_queries', 0) + 1
+    return {'c': c, 'nt': True, 'key': ('odd', repr(k), tuple(repr(v) for v in vals))}
+
+
 def run_case(ctx, seed, idx, tier):
     rng = random.Random((seed * 1000003 + idx) * 7 + 3)
+    if idx % 40 == 5:
+        return odd_constant_case(ctx, rng)
     clauses, qname, qargs, py = gen_program(rng)
     from ..terms import term_vars
     qv = []
